@@ -9,7 +9,7 @@ mkdir -p $S/repo $S/ev $S/replays
 git -C /repo archive HEAD | tar -x -C $S/repo
 (cd $S/repo && git init -q . && git apply $P) || { echo "PATCH_DOES_NOT_APPLY"; exit 3; }
 rm -rf $S/repo/.git
-VERIF_REPO=$S/repo VERIF_EVIDENCE_DIR=$S/ev VERIF_REPLAY_DIR=$S/replays /verif/check $prop $tier > $S/out.txt 2>&1
+VERIF_REPO=$S/repo VERIF_EVIDENCE_DIR=$S/ev VERIF_REPLAY_DIR=$S/replays "$(dirname "$(readlink -f "$0")")/../check" $prop $tier > $S/out.txt 2>&1
 rc=$?
 grep -v WARNING $S/out.txt | grep -A2 "^VIOLATION\|^KNOWN\|INFRA\|UNSUPPORTED" | cut -c1-${MUT_COLS:-400} | head -${MUT_LINES:-12}
 tail -1 $S/out.txt | cut -c1-200
